@@ -32,6 +32,7 @@ type EvalCtx struct {
 	depth int
 	qn    *int
 	seenKeys map[string]*Term // name of range loop var -> seen array (for seen(k))
+	loopEntry *State          // state at the entry of the loop whose invariant is being evaluated
 }
 
 type evalErr struct{ msg string }
@@ -699,6 +700,15 @@ func (ev *EvalCtx) evalCall(e ECall) TV {
 		k := ev.eval(e.Args[0])
 		arr := ev.seenArray(k.V.T.Sort, "")
 		return TV{V: scalar(Select(arr, k.V.T))}
+	case "entry":
+		// entry(e): value of e when the enclosing loop was entered (loop invariants only)
+		argn(1)
+		if ev.loopEntry == nil {
+			ev.fail("entry() is only available in loop invariants")
+		}
+		c := *ev
+		c.cur = ev.loopEntry
+		return c.eval(e.Args[0])
 	case "gcount":
 		// gcount(name, key[, key2]): value of the declared ghost counter map `name`
 		if len(e.Args) < 2 {
